@@ -204,22 +204,26 @@ structure WpsOut (α : Type) where
   mat : List (List α)
   /-- cells reported as `-1` when `psi_neg` is requested (matrix coordinates) -/
   neg : List (Nat × Nat)
+  /-- the selected end cell (matrix coordinates) -/
+  endCell : Nat × Nat
 
 /-- `dtw.warping_paths` before the result transform: pruned matrix, end-point selection of the psi
 epilogue (`argmin` over the reversed last column / last row slices, strict `<` between them) and
 the cells marked `-1`. The final threshold check is applied by the caller (`finalCheck`). -/
 def wpsModel (g : Grid α) (m : α) : WpsOut α :=
   let mat := matP g m g.r
-  if g.psi1e = 0 ∧ g.psi2e = 0 then { d := cellOf mat g.r g.c, mat := mat, neg := [] }
+  if g.psi1e = 0 ∧ g.psi2e = 0 then { d := cellOf mat g.r g.c, mat := mat, neg := [], endCell := (g.r, g.c) }
   else
     let vr := (List.range (min g.r (g.psi1e + 1))).map fun k => cellOf mat (g.r - k) g.c
     let vc := (List.range (min g.c (g.psi2e + 1))).map fun k => cellOf mat g.r (g.c - k)
     let mir : Nat × α := if g.psi1e ≠ 0 then argminFirst vr else (g.r, top)
     let mic : Nat × α := if g.psi2e ≠ 0 then argminFirst vc else (g.c, top)
     if mir.2 ≤ mic.2 ∧ ¬ mic.2 ≤ mir.2 then
-      { d := mir.2, mat := mat, neg := (List.range mir.1).map fun k => (g.r - k, g.c) }
+      { d := mir.2, mat := mat, neg := (List.range mir.1).map fun k => (g.r - k, g.c),
+        endCell := (g.r - mir.1, g.c) }
     else
-      { d := mic.2, mat := mat, neg := (List.range mic.1).map fun k => (g.r, g.c - k) }
+      { d := mic.2, mat := mat, neg := (List.range mic.1).map fun k => (g.r, g.c - k),
+        endCell := (g.r, g.c - mic.1) }
 
 end
 
